@@ -220,6 +220,23 @@ let bump k = Hashtbl.replace fetch_stats k (1 + (try Hashtbl.find fetch_stats k 
 (* the theorem consume_any_order applied to the implementation: when the decidable hypotheses hold for the event list
    of the case (run_ok, and for the strong conclusion run_clean and quiescence), its conclusion is evaluated on the
    callbacks the IMPLEMENTATION made *)
+(* cases with send-fault injection (engine.Express returning an error while the Interest stays pending) are outside the
+   model: only the property itself is evaluated on the implementation's observations *)
+let fetch_case_implonly (evs : cev list) (impl_log : (int * cbrec) list) (impl_quiet : bool) =
+  bump "send-fault-cases";
+  let nstreams = List.length (List.filter (function EvConsume _ -> true | _ -> false) evs) in
+  for sid = 0 to nstreams - 1 do
+    let log = List.map snd (List.filter (fun (s, _) -> s = sid) impl_log) in
+    let k = int_of_nat (completions log) in
+    if k > 1 then
+      oracle "fetch:impl-completed-more-than-once"
+        (Printf.sprintf "stream %d: the callback reported completion %d times (send errors injected; errors seen: %s)" sid k
+           (String.concat "," (List.filter_map (fun r -> if r.cb_complete then Some (errs r.cb_err) else None) log)))
+    else if impl_quiet && k = 0 then
+      oracle "fetch:impl-quiescent-consumer-never-completed"
+        (Printf.sprintf "stream %d: nothing queued, nothing pending, no completion reported (send errors injected)" sid)
+  done
+
 let fetch_case_oracle (objs : (string * n list list) list) (evs : cev list) (impl_log : (int * cbrec) list) (diverged : bool) (impl_quiet : bool) =
   let (_, _), cfin0 = run_checkb (fun _ -> []) cl_init evs in
   let fetch_of sid = string_of_name (List.nth cfin0.c_streams sid).s_fetch in
@@ -260,7 +277,7 @@ let fetch_case_oracle (objs : (string * n list list) list) (evs : cev list) (imp
   end else bump (if wf then "dishonest-or-malformed-replies" else "ill-formed-object")
 
 let run_fetch () =
-  let objs = ref [] and evs = ref [] and impl_log = ref [] and any_div = ref false and impl_quiet = ref false in
+  let objs = ref [] and evs = ref [] and impl_log = ref [] and any_div = ref false and impl_quiet = ref false and sendfault = ref false in
   let c = ref cl_init and evno = ref 0 and impl_cbs = ref [] and last_ev = ref "" and stop = ref false in
   let logs_len = ref [] in    (* per stream: number of callback records already printed *)
   let new_cb_lines () =
@@ -279,7 +296,8 @@ let run_fetch () =
       let line = input_line stdin in
       match String.split_on_char ' ' line with
       | ["FETCH"] -> incr ncases; c := cl_init; evno := 0; impl_cbs := []; logs_len := []; stop := false;
-          objs := []; evs := []; impl_log := []; any_div := false; impl_quiet := false
+          objs := []; evs := []; impl_log := []; any_div := false; impl_quiet := false; sendfault := false
+      | "SENDERR" :: _ -> sendfault := true; stop := true
       | ["QUIET"; q] -> impl_quiet := (q = "1")
       | ["OBJ"; nm; segs] -> objs := (nm, wire_of_string segs) :: !objs
       | "CB" :: sid :: complete :: err :: progress :: max :: [chunk] when !stop ->
@@ -332,7 +350,9 @@ let run_fetch () =
       | "HANG" :: what ->
           oracle ("fetch:hang:" ^ String.concat "_" what)
             (Printf.sprintf "event %d (%s): the client's goroutine never returned from %s" !evno (short !last_ev) (String.concat " " what))
-      | ["END"] -> fetch_case_oracle !objs (List.rev !evs) (List.rev !impl_log) !any_div !impl_quiet
+      | ["END"] ->
+          if !sendfault then fetch_case_implonly (List.rev !evs) (List.rev !impl_log) !impl_quiet
+          else fetch_case_oracle !objs (List.rev !evs) (List.rev !impl_log) !any_div !impl_quiet
       | [""] | [] -> ()
       | _ -> print_endline ("BADLINE " ^ short line)
     done
@@ -370,7 +390,7 @@ let run_e2e () =
                  | None -> List.fold_left (fun acc (_, v, c) -> match acc with
                               | Some (bv, _) when not (N.ltb bv v) -> acc
                               | _ -> Some (v, c)) None cands |> Option.map snd in
-               let may_fail = (mode = "blackhole" && dropped > 0) in
+               let may_fail = (mode = "blackhole" && dropped > 0) || (mode = "sendfault" && dropped > 0) in
                let sigp = Printf.sprintf "e2e:%s:%s" !store mode in
                let detail = Printf.sprintf "CONSUME %s %s: %d callbacks, %d completion(s), delivered %d bytes, expected %s" nm pol (List.length log)
                    (int_of_nat (completions log)) (List.length (log_chunks log))
@@ -394,6 +414,7 @@ let run_e2e () =
           cur := None
       | ["END"] -> ()
       | "BAD" :: _ -> oracle "e2e:bad" (short line)
+      | "HANG" :: _ -> oracle "e2e:hang" (short line)
       | [""] | [] -> ()
       | _ -> print_endline ("BADLINE " ^ short line)
     done
